@@ -61,7 +61,9 @@ def make_query(
     )
     values: List[QueryValue] = [module]
     if qualname is not None:
-        raw_query += " AND qualname LIKE ? || '%'"
+        # instr() rather than LIKE: LIKE treats `_` and `%` in the prefix as
+        # wildcards and folds ASCII case.
+        raw_query += " AND instr(qualname, ?) == 1"
         values.append(qualname)
     raw_query += """
     GROUP BY
